@@ -7,6 +7,7 @@ package props
 
 import (
 	"context"
+	"encoding/json"
 	"crypto/sha512"
 	"encoding/base64"
 	"net/http"
@@ -273,7 +274,9 @@ func (f *flow) symbolicSession() {
 		case sms2fa.SessionSMSLast:
 			v = strconv.Itoa(verif.Int("S_sms_last", 946684800, 4102444800)) // Unix seconds, years 2000..2100 (A2)
 		case authboss.SessionOAuth2Params:
-			v = verif.String("S_"+k, 4)
+			// A2: written by oauth2.Start only — the JSON encoding of the pass-along parameters
+			enc, _ := json.Marshal(map[string]string{"redir": verif.String("S_oauth2_redir", 4), "rm": verif.String("S_oauth2_rm", 4)})
+			v = string(enc)
 		default:
 			v = verif.String("S_"+k, 6)
 		}
